@@ -81,7 +81,7 @@ impl Check for C10 {
             .boxed()
     }
     fn rule(&self) -> String {
-        "a strong-equivalence task over two random programs, or (1 in 3) an external-equivalence task (program or specification, user guide, 2 in 3 with a proof outline of lemmas and an inductive lemma), 1-20 problems, is first run with --no-proof-search --save-problems; then `verify` runs with a stand-in `vampire` first in PATH that stores its stdin and answers by plan (keyed by the SHA-256 of the problem text): each problem gets one of {Theorem, Theorem or Timeout after 8 KB of other output, GaveUp followed by Theorem in one run (counts as not proven: a status other than Theorem was printed), CounterSatisfiable, ContradictoryAxioms, Timeout, MemoryOut, GaveUp, Error, unknown status word, no status line, non-UTF-8 output, Theorem with non-zero exit, Theorem and then killed by a signal, no status with non-zero exit, killed by signal} and a delay of 0-40 ms, with 1-8 (or auto) prover instances; half of the plans have zero or exactly one non-Theorem outcome at a generated position; plus runs with the executable missing and with a prover that exits without reading; oracle: every stored stdin is byte-identical to a saved file and the multisets agree (each problem handed over exactly once), the files saved by both runs agree (also when the second directory already holds files of the same names that are longer, or as long with another content), problem names are distinct, stdout says Success iff every planned outcome prints SZS status Theorem, otherwise Failure, every named status line matches the plan, exit status 0; non-trivial = at least 2 problems and at least 2 instances with zero or one non-Theorem outcome; distinct by problems + plan + instances".into()
+        "a strong-equivalence task over two random programs, or (1 in 3) an external-equivalence task (program or specification, user guide, 2 in 3 with a proof outline of lemmas and an inductive lemma), 1-20 problems, is first run with --no-proof-search --save-problems; then `verify` runs with a stand-in `vampire` first in PATH that stores its stdin and answers by plan (keyed by the SHA-256 of the problem text): each problem gets one of {Theorem, Theorem or Timeout after 8 KB of other output, GaveUp followed by Theorem in one run (counts as not proven: a status other than Theorem was printed), CounterSatisfiable, ContradictoryAxioms, Timeout, MemoryOut, GaveUp, Error, unknown status word, no status line, non-UTF-8 output, Theorem with non-zero exit, Theorem and then killed by a signal, no status with non-zero exit, no status on stdout but a status-like line on stderr, killed by signal} and a delay of 0-40 ms, with 1-8 (or auto) prover instances; half of the plans have zero or exactly one non-Theorem outcome at a generated position; plus runs with the executable missing and with a prover that exits without reading; oracle: every stored stdin is byte-identical to a saved file and the multisets agree (each problem handed over exactly once), the files saved by both runs agree (also when the second directory already holds files of the same names that are longer, or as long with another content), problem names are distinct, stdout says Success iff every planned outcome prints SZS status Theorem, otherwise Failure, every named status line matches the plan, exit status 0; non-trivial = at least 2 problems and at least 2 instances with zero or one non-Theorem outcome; distinct by problems + plan + instances".into()
     }
     fn run(&self, case: &Case) -> Outcome {
         let Some(bin) = cli::anthem_bin() else {
@@ -208,6 +208,8 @@ impl Check for C10 {
             } else {
                 outcome
             };
+            // no status on stdout: half of the time with a status-like line on stderr
+            let outcome = if outcome == "NoStatus" && c.aux(61 + i as u64, 2) == 0 { "NoStatusStderrTheorem" } else { outcome };
             // a prover that printed its status and did not exit normally: half of the time it died from a signal
             let outcome = if outcome == "TheoremNonZeroExit" && c.aux(60 + i as u64, 2) == 0 { "TheoremThenKilledBySignal" } else { outcome };
             let delay = c.next(41) as u64;
